@@ -104,7 +104,7 @@ func collectLits(fd *ast.FuncDecl) litRoles {
 	return c
 }
 
-func emitStringList(w *bytes.Buffer, name string, xs []string) {
+func namesEmitStringList(w *bytes.Buffer, name string, xs []string) {
 	var qs []string
 	for _, x := range xs {
 		qs = append(qs, coqString(x))
@@ -144,7 +144,7 @@ func genNames(out string) {
 		c := collectLits(fd)
 		fmt.Fprintf(&w, "(* %s: %s *)\n", p.fset.Position(fd.Pos()).String()[len(repo)+1:], it.fn)
 		for _, r := range it.roles {
-			emitStringList(&w, it.coq+"_"+r, c.role[r])
+			namesEmitStringList(&w, it.coq+"_"+r, c.role[r])
 		}
 	}
 	writeIfChanged(filepath.Join(out, "Names.v"), w.Bytes())
